@@ -294,3 +294,30 @@ class inj_hash_shadow:
         for m in (n.puan, n.pg):
             m.__dict__.pop("hash", None)
         return False
+
+
+def clear_all_caches(n=None):
+    """empty every functools cache found on classes of the repository's modules (a change may introduce new ones);
+    called before every instantiation so that instantiations sharing a worker process stay independent"""
+    n = n or _ns
+    if n is None:
+        return
+    for mod in (n.puan, n.pg, n.pnd, n.cc):
+        for obj in list(vars(mod).values()):
+            if isinstance(obj, type):
+                for attr in list(vars(obj).values()):
+                    f = getattr(attr, "fget", attr)
+                    f = getattr(f, "__func__", f)
+                    cc_ = getattr(f, "cache_clear", None)
+                    if callable(cc_):
+                        try:
+                            cc_()
+                        except Exception:   # noqa
+                            pass
+            else:
+                cc_ = getattr(obj, "cache_clear", None)
+                if callable(cc_) and getattr(obj, "__module__", "").startswith("puan"):
+                    try:
+                        cc_()
+                    except Exception:   # noqa
+                        pass
